@@ -548,6 +548,11 @@ func c19Cursors(x *engine.X) {
 				x.Failf("cursor-window", "op=next", "after %v: Next(%d) at row %d returned %d rows, want %d", hist, k, pos, m, want)
 				return
 			}
+			if m == 0 {
+				// exhausted: Next returns (0, io.EOF) without advancing the window;
+				// what the cursors hold then is unspecified, nothing to compare
+				continue
+			}
 			if ca != nil {
 				ints := ca.Int64s()
 				if len(ints) != m {
